@@ -1270,6 +1270,9 @@ fn families(thorough: bool) -> Vec<Family> {
             ("Tr2<u32>", ""),
             ("Tr2<T>", "T"),
             ("TrA<A = u32>", ""),
+            // the same generic trait at two different argument lists, one with a binding
+            ("TrG<u32>", ""),
+            ("TrG<S0, B<S0> = u32>", ""),
             ("TrG<T, B<S0> = U>", "TU"),
             ("forall<'x> TrL<'x>", ""),
             ("TrL<'a>", "a"),
